@@ -96,8 +96,8 @@ class Ctx:
             cmd += ["-simulate", simulate]
         cmd += list(extra) + [module + ".tla"]
         env = dict(os.environ)
-        if dfs:
-            env["JAVA_TOOL_OPTIONS"] = "-Dtlc2.tool.queue.IStateQueue=StateDeque"
+        # deep recursive operators (folds over long event lists) need more than the default thread stack
+        env["JAVA_TOOL_OPTIONS"] = "-Xss512m" + (" -Dtlc2.tool.queue.IStateQueue=StateDeque" if dfs else "")
         t = time.time()
         r = subprocess.run(cmd, cwd=self.specdir, env=env, capture_output=True, text=True)
         out = r.stdout + r.stderr
